@@ -1180,7 +1180,13 @@ impl<'a, 'ast> Typecheck<'a, 'ast> {
                 body,
                 flat_map_id,
             }) => {
-                let do_span = expr.span.subspan(0.into(), 2.into());
+                // Point at the `do` keyword (the span can be shorter than that if the expression was
+                // put together by the parser's error recovery)
+                let do_span = if expr.span.end().to_usize() - expr.span.start().to_usize() >= 2 {
+                    expr.span.subspan(0.into(), 2.into())
+                } else {
+                    expr.span
+                };
                 let flat_map_type = match flat_map_id
                     .as_mut()
                     .expect("flat_map inserted during renaming")
